@@ -492,4 +492,129 @@ pub fn run(ctx: &mut Ctx) {
             ctx.sample(json!({"workload": wl, "kind": format!("{kind:?}"), "n": n}));
         }
     }
+    w_combined_rhs(ctx);
+}
+
+/// The corrector right-hand side as the solver assembles it for a whole cone list
+/// (`DefaultVariables::combined_step_rhs`, public API) against its definition
+///   ds = lambda o lambda + M (W^-T ds_aff o W dz_aff) - sigma mu e ,  kappa = tau kappa + M dtau dkappa - sigma mu ,
+/// built block by block from fresh single-cone objects (whose operators the `points` workload judges).
+/// M is the Mehrotra-correction scale: 1 in every iteration but the first, where it is alpha_aff < 1.
+fn w_combined_rhs(ctx: &mut Ctx) {
+    use clarabel::solver::traits::Variables;
+    use clarabel::solver::{DefaultResiduals, DefaultVariables};
+    use clarabel::verif::{CompositeCone, PrimalOrDualCone};
+    let wl = "combined_rhs";
+    let total = if ctx.flavour == "miri" { ctx.count(6, 30) } else { ctx.count(1500, 30000) };
+    for case in ctx.cases(wl, total) {
+        if ctx.out_of_budget() {
+            continue;
+        }
+        if case % 64 == 0 || ctx.flavour == "miri" {
+            ctx.begin(wl, case);
+        }
+        let mut rng = Rng::for_case(ctx.seed, "C13/combined_rhs", case);
+        let small = ctx.flavour == "miri";
+        let mut types: Vec<ConeT> = vec![];
+        for _ in 0..rng.usize(1, 4) {
+            types.push(match rng.usize(0, if cfg!(feature = "sdp") { 3 } else { 2 }) {
+                0 => ConeT::NonnegativeConeT(rng.usize(1, 4)),
+                1 => ConeT::SecondOrderConeT(rng.usize(2, 4)),
+                2 => ConeT::SecondOrderConeT(rng.usize(5, if small { 6 } else { 12 })),
+                _ => {
+                    #[cfg(feature = "sdp")]
+                    {
+                        ConeT::PSDTriangleConeT(rng.usize(1, if small { 2 } else { 4 }))
+                    }
+                    #[cfg(not(feature = "sdp"))]
+                    {
+                        ConeT::NonnegativeConeT(2)
+                    }
+                }
+            });
+        }
+        let nc = vc::total_dim(&types);
+        let nx = 2;
+        let (mut s, mut z) = (vec![], vec![]);
+        for t in &types {
+            s.extend(vc::sample_interior(t, &mut rng, false, 1.0, 0.3));
+            z.extend(vc::sample_interior(t, &mut rng, true, 1.0, 0.3));
+        }
+        let dz: Vec<f64> = (0..nc).map(|_| rng.range(-1.0, 1.0)).collect();
+        let ds: Vec<f64> = (0..nc).map(|_| rng.range(-1.0, 1.0)).collect();
+        let (sigma, mu) = (rng.range(0.0, 1.0), rng.logpos(-3.0, 1.0));
+        let mrand = rng.range(0.05, 1.0);
+        let m = *rng.choose(&[1.0, 1.0, 0.6, 0.25, mrand]);
+        let (tau, kappa, dtau, dkappa) = (rng.range(0.5, 2.0), rng.range(0.5, 2.0), rng.range(-1.0, 1.0), rng.range(-1.0, 1.0));
+        ctx.nontrivial_n(1);
+        let out = vkit::report::catch(std::panic::AssertUnwindSafe(|| {
+            // reference, block by block
+            fn one<C: Cone<f64> + SymmetricCone<f64>>(cone: &mut C, s: &[f64], z: &[f64], dz: &[f64], ds: &[f64], m: f64, sm: f64) -> Option<Vec<f64>> {
+                let n = s.len();
+                if !cone.update_scaling(s, z, 1.0, ScalingStrategy::PrimalDual) {
+                    return None;
+                }
+                let mut lam = vec![0.0; n];
+                cone.mul_W(MatrixShape::N, &mut lam, z, 1.0, 0.0);
+                let mut ll = vec![0.0; n];
+                cone.circ_op(&mut ll, &lam, &lam);
+                let (mut wdz, mut wids, mut corr, mut e) = (vec![0.0; n], vec![0.0; n], vec![0.0; n], vec![0.0; n]);
+                cone.mul_W(MatrixShape::N, &mut wdz, dz, 1.0, 0.0);
+                cone.mul_Winv(MatrixShape::T, &mut wids, ds, 1.0, 0.0);
+                cone.circ_op(&mut corr, &wids, &wdz);
+                cone.scaled_unit_shift(&mut e, -sm, PrimalOrDualCone::PrimalCone);
+                Some((0..n).map(|i| ll[i] + m * corr[i] + e[i]).collect())
+            }
+            let mut expect: Vec<f64> = vec![];
+            for (t, r) in types.iter().zip(vc::cone_ranges(&types)) {
+                let part = match t {
+                    ConeT::NonnegativeConeT(d) => one(&mut NonnegativeCone::<f64>::new(*d), &s[r.clone()], &z[r.clone()], &dz[r.clone()], &ds[r.clone()], m, sigma * mu),
+                    ConeT::SecondOrderConeT(d) => one(&mut SecondOrderCone::<f64>::new(*d), &s[r.clone()], &z[r.clone()], &dz[r.clone()], &ds[r.clone()], m, sigma * mu),
+                    #[cfg(feature = "sdp")]
+                    ConeT::PSDTriangleConeT(d) => one(&mut PSDTriangleCone::<f64>::new(*d), &s[r.clone()], &z[r.clone()], &dz[r.clone()], &ds[r.clone()], m, sigma * mu),
+                    _ => None,
+                };
+                expect.extend(part?);
+            }
+            // what the solver assembles
+            let mut cones = CompositeCone::<f64>::new(&types);
+            let mut variables = DefaultVariables::<f64>::new(nx, nc);
+            variables.s.copy_from_slice(&s);
+            variables.z.copy_from_slice(&z);
+            variables.τ = tau;
+            variables.κ = kappa;
+            if !variables.scale_cones(&mut cones, mu, ScalingStrategy::PrimalDual) {
+                return None;
+            }
+            let residuals = DefaultResiduals::<f64>::new(nx, nc);
+            let mut step = DefaultVariables::<f64>::new(nx, nc);
+            step.z.copy_from_slice(&dz);
+            step.s.copy_from_slice(&ds);
+            step.τ = dtau;
+            step.κ = dkappa;
+            let mut rhs = DefaultVariables::<f64>::new(nx, nc);
+            rhs.affine_step_rhs(&residuals, &variables, &cones);
+            rhs.combined_step_rhs(&residuals, &variables, &mut cones, &mut step, sigma, mu, m);
+            Some((expect, rhs.s.clone(), rhs.κ))
+        }));
+        ctx.eval(1);
+        let detail = |extra: serde_json::Value| json!({"cones": vkit::problem::cones_json(&types), "s": s, "z": z, "dz": dz, "ds": ds, "sigma": sigma, "mu": mu, "M": m, "check": extra});
+        match out {
+            Err(msg) => ctx.violation("panic", "panic:combined_rhs", wl, case, detail(json!({"panic": msg}))),
+            Ok(None) => ctx.bump("combined_rhs_scaling_refused"),
+            Ok(Some((expect, got, got_kappa))) => {
+                ctx.bump(if m == 1.0 { "combined_rhs_full_correction" } else { "combined_rhs_reduced_correction" });
+                let scale = expect.iter().fold(1.0f64, |a, v| a.max(v.abs()));
+                let worst = expect.iter().zip(&got).fold(0.0f64, |a, (e, g)| a.max((e - g).abs())) / scale;
+                ctx.observe_max("combined_rhs_rel_err", worst);
+                if !(worst <= 1e-9) {
+                    ctx.violation("combined_rhs_ds", "combined_rhs_ds", wl, case, detail(json!({"relative_error": worst, "got": got, "want": expect})));
+                }
+                let want_kappa = tau * kappa + m * dtau * dkappa - sigma * mu;
+                if !((got_kappa - want_kappa).abs() <= 1e-12 * (1.0 + want_kappa.abs())) {
+                    ctx.violation("combined_rhs_kappa", "combined_rhs_kappa", wl, case, detail(json!({"got": got_kappa, "want": want_kappa})));
+                }
+            }
+        }
+    }
 }
